@@ -499,12 +499,19 @@ where
         let qual_len = self.buf_pos.pos.1 - self.buf_pos.qual + 1;
         let seq_len = self.buf_pos.sep - self.buf_pos.seq;
         if seq_len != qual_len {
-            self.state = State::Finished;
-            return Err(Error::UnequalLengths {
-                seq: self.buf_pos.seq(self.get_buf()).len(),
-                qual: self.buf_pos.qual(self.get_buf()).len(),
-                pos: self.get_error_pos(0, true),
-            });
+            // The line extents include the terminators. They also differ if only the
+            // terminators differ (CRLF input whose last line has no terminator), therefore
+            // the lengths without terminators decide.
+            let seq = self.buf_pos.seq(self.get_buf()).len();
+            let qual = self.buf_pos.qual(self.get_buf()).len();
+            if seq != qual {
+                self.state = State::Finished;
+                return Err(Error::UnequalLengths {
+                    seq,
+                    qual,
+                    pos: self.get_error_pos(0, true),
+                });
+            }
         }
         Ok(())
     }
